@@ -175,6 +175,19 @@ func (w *world) classifyWrite(u *unit, e ast.Expr, mode writeMode, lits []*ast.F
 	out := write{text: w.text(e)}
 	x := unparen(e)
 	elemDeref := false
+	if mode == wAppend {
+		// append(x[lo:hi:hi], …): the operand has no spare capacity, so append always allocates and never writes into
+		// the array x points to – whatever x is (this is the idiom that keeps a caller's key buffer untouched, C13)
+		if se, ok := x.(*ast.SliceExpr); ok && se.Slice3 && se.High != nil && se.Max != nil && w.text(se.High) == w.text(se.Max) {
+			if _, isSlice := w.info.TypeOf(se.X).Underlying().(*types.Slice); isSlice {
+				out.class = "local"
+				if len(lits) > 0 {
+					out.pass = "pass-local"
+				}
+				return out, true
+			}
+		}
+	}
 	if mode != wDirect {
 		// a re-slice of a slice denotes (part of) the same backing array
 		for {
